@@ -21,7 +21,11 @@ func (r Readers) Name() string {
 func (Readers) Property() string { return "C19" }
 
 func (r Readers) Generate(seed uint64, tier string) engine.Plan {
-	p := genReaders(seed, r.yield, strings.HasSuffix(tier, "/cold"), deep(tier))
+	rare := ""
+	if i := strings.LastIndex(tier, "/rare"); i >= 0 {
+		rare = tier[i+1:]
+	}
+	p := genReaders(seed, r.yield, strings.HasSuffix(tier, "/cold"), deep(tier), rare)
 	if r.yield {
 		rr := engine.NewPRNG(seed ^ 0x1234)
 		p.Sched.Den = rr.PickInt(2, 4, 8, 16, 64)
@@ -44,9 +48,12 @@ func (r Readers) Execute(pl engine.Plan, c *engine.RunCtx) *engine.Failure {
 	c.MaxEvents = 1 << 22
 	enablePanicOnFault()
 	padKeep = applyPad(p.Pad)
-	w := buildWorld(p.World)
+	w := buildWorld(p.World, nil)
 	defer w.arena.free()
 	snap0 := w.snapshot()
+	w2 := buildWorld(p.World, w)
+	defer w2.arena.free()
+	snap2 := w2.snapshot()
 	// C19.tables: a table may legitimately be FILLED on first use (e.g. behind a
 	// sync.Once); what must not happen is a change after that. The reference
 	// hash is therefore taken after the first complete phase (both phases run
@@ -75,7 +82,10 @@ func (r Readers) Execute(pl engine.Plan, c *engine.RunCtx) *engine.Failure {
 				step := t*1000 + i
 				c.Status.SetStep(uint64(step), 1)
 				a := execOp(w, op, false, pz[0])
-				b := execOp(w, op, true, pz[1])
+				b := a
+				if !p.World.HugeMasks { // (a Decode of a huge tree is costly: once per phase)
+					b = execOp(w2, op, true, pz[1]) // the twin: equal values, different surroundings
+				}
 				c.Status.SetStep(uint64(step), 0)
 				c.LibCalls += 2
 				if a.alias || b.alias {
@@ -87,7 +97,7 @@ func (r Readers) Execute(pl engine.Plan, c *engine.RunCtx) *engine.Failure {
 				if b.fault != 0 {
 					return faultFail(step, t, i, &b)
 				}
-				if strings.HasPrefix(op.Fn, "sigbits.Huge") && w.huge != nil {
+				if (strings.HasPrefix(op.Fn, "sigbits.Huge") && w.huge != nil) || (strings.HasPrefix(op.Fn, "bitmap.Huge") && w.hugeWords != nil) {
 					// the number of processors is not an argument either
 					old := runtime.GOMAXPROCS(1)
 					c1 := execOp(w, op, false, pz[0])
@@ -97,11 +107,11 @@ func (r Readers) Execute(pl engine.Plan, c *engine.RunCtx) *engine.Failure {
 					c.LibCalls += 2
 					st.Inc("probe.C19.huge_input_under_two_GOMAXPROCS")
 					if c1.hash != c4.hash || c1.hash != a.hash {
-						return engine.Failf("C19.ambient", step, "%s on %d keys: the result depends on GOMAXPROCS (1 vs 4 vs %d processors give different results): it does not depend only on its arguments", opName(t, i), len(w.huge), old)
+						return engine.Failf("C19.ambient", step, "%s on a huge input (%d keys / %d words): the result depends on GOMAXPROCS (1 vs 4 vs %d processors give different results): it does not depend only on its arguments", opName(t, i), len(w.huge), len(w.hugeWords), old)
 					}
 				}
 				if a.hash != b.hash {
-					return engine.Failf("C19.ambient", step, "%s: the result depends on something other than its arguments: with stack poison %#x (direct call) it gave %s, with poison %#x (call through a function value) it gave %s", opName(t, i), pz[0], a.describe(), pz[1], b.describe())
+					return engine.Failf("C19.ambient", step, "%s: the result depends on something other than its arguments: with stack poison %#x (direct call) it gave %s; with poison %#x, called through a function value on EQUAL arguments stored elsewhere (other bytes behind len, every other slice with cap == len) it gave %s", opName(t, i), pz[0], a.describe(), pz[1], b.describe())
 				}
 				ref[t][i] = a
 				st.Inc("op." + op.Fn)
@@ -113,7 +123,7 @@ func (r Readers) Execute(pl engine.Plan, c *engine.RunCtx) *engine.Failure {
 		return nil
 	}
 	if !p.RefAfter {
-		if f := phase1(); f != nil {
+		if f := r.sequentially(c, phase1); f != nil {
 			return f
 		}
 		tab0 = tablesHash()
@@ -141,13 +151,21 @@ func (r Readers) Execute(pl engine.Plan, c *engine.RunCtx) *engine.Failure {
 	}
 	c.Tasks = len(p.Tasks)
 	if r.yield {
-		setYieldHook(func() { sch.Current().Yield() })
+		setSimHooks(sch, p.YieldStride)
 	}
 	ok := sch.Run()
-	setYieldHook(nil)
+	setSimHooks(nil, 0)
 	if !ok {
+		if sch.Blocks() > 0 {
+			return engine.Failf("C19.deadlock", 100000, "under the simulated schedule every remaining task waits for a lock, a Once or a WaitGroup of the library that no runnable task can release: concurrent readers deadlock")
+		}
 		panic(engine.HarnessError{Msg: "readers: deadlock"})
 	}
+	if f := livePanic(sch, 100000); f != nil {
+		return f
+	}
+	st.Add("probe.C19.library_goroutines_run_as_simulated_tasks", int64(sch.NumTasks()-len(p.Tasks)))
+	st.Add("probe.C19.task_gave_way_at_a_library_lock_or_waitgroup", int64(sch.Blocks()))
 	c.Switches = sch.NumSwitches()
 	st.Interleaving(sch.InterleavingHash())
 	st.Add("probe.C19.context_switches", int64(sch.NumSwitches()))
@@ -155,7 +173,7 @@ func (r Readers) Execute(pl engine.Plan, c *engine.RunCtx) *engine.Failure {
 	st.Add("probe.C19.yield_points", int64(sch.Yields()))
 	if p.RefAfter {
 		tab0 = tablesHash()
-		if f := phase1(); f != nil {
+		if f := r.sequentially(c, phase1); f != nil {
 			return f
 		}
 	}
@@ -234,28 +252,91 @@ func (r Readers) Execute(pl engine.Plan, c *engine.RunCtx) *engine.Failure {
 			scribble(&outs[t][i])
 		}
 	}
-	for t, ops := range p.Tasks {
-		for i, op := range ops {
-			step := 200000 + t*1000 + i
-			c.Status.SetStep(uint64(step), 1)
-			again := execOp(w, op, false, pz[0])
-			c.Status.SetStep(uint64(step), 0)
-			c.LibCalls++
-			if again.fault != 0 {
-				return faultFail(step, t, i, &again)
+	if f := r.sequentially(c, func() *engine.Failure {
+		for t, ops := range p.Tasks {
+			if p.World.HugeMasks {
+				break
 			}
-			if again.hash != refHash[t][i] {
-				return engine.Failf("C19.result_shared", step, "%s: after the owners of earlier results wrote into them, the same call returns something else (%s): some result shares memory with package state or with another call's result", opName(t, i), again.describe())
+			for i, op := range ops {
+				step := 200000 + t*1000 + i
+				c.Status.SetStep(uint64(step), 1)
+				again := execOp(w, op, false, pz[0])
+				c.Status.SetStep(uint64(step), 0)
+				c.LibCalls++
+				if again.fault != 0 {
+					return faultFail(step, t, i, &again)
+				}
+				if again.hash != refHash[t][i] {
+					return engine.Failf("C19.result_shared", step, "%s: after the owners of earlier results wrote into them, the same call returns something else (%s): some result shares memory with package state or with another call's result", opName(t, i), again.describe())
+				}
 			}
 		}
+		return nil
+	}); f != nil {
+		return f
 	}
-	if w.snapshot() != snap0 {
+	if w.snapshot() != snap0 || w2.snapshot() != snap2 {
 		return engine.Failf("C19.snapshot", 999999, "a shared input (bitmap, index, key, encoding) was modified during the run")
 	}
 	if tablesHash() != tab0 {
 		return engine.Failf("C19.tables", 999999, "a package-level table (Mask/RMask/MaskUpto/RMaskUpto/Bit/RBit, BitWord, select lookup, idxToPath) changed after initialisation")
 	}
 	st.State(engine.HashU64(0, snap0, sch.InterleavingHash()))
+	return nil
+}
+
+// sequentially runs a sequential phase. In the -race flavour that is a plain
+// call. In the statement-yield flavour the phase runs as the one planned task
+// of a scheduler in mode "seq": goroutines the library starts are then tasks
+// of that scheduler too (they run when the phase's task cannot proceed, or
+// after it), so that the sequential reference is as repeatable as the
+// concurrent phase — no real goroutine of the library ever runs.
+func (r Readers) sequentially(c *engine.RunCtx, phase func() *engine.Failure) *engine.Failure {
+	if !r.yield {
+		return phase()
+	}
+	var f *engine.Failure
+	sch := engine.NewSched(engine.Schedule{Mode: "seq"})
+	sch.Spawn(func(tk *engine.Task) {
+		enablePanicOnFault()
+		f = phase()
+	})
+	setSimHooks(sch, -1)
+	ok := sch.Run()
+	setSimHooks(nil, 0)
+	if pv := sch.TaskPanic(0); pv != nil {
+		if he, isHE := pv.(engine.HarnessError); isHE {
+			panic(he)
+		}
+		panic(engine.HarnessError{Msg: fmt.Sprintf("a sequential phase panicked outside a library call: %v", pv)})
+	}
+	if !ok {
+		if sch.Blocks() > 0 {
+			return engine.Failf("C19.deadlock", 0, "a single caller waits for a lock, a Once or a WaitGroup of the library that nothing can release: the call never returns")
+		}
+		panic(engine.HarnessError{Msg: "readers: deadlock in a sequential phase"})
+	}
+	if f != nil {
+		return f
+	}
+	c.Stats.Add("probe.C19.library_goroutines_run_as_simulated_tasks", int64(sch.NumTasks()-1))
+	return livePanic(sch, 0)
+}
+
+// livePanic: a goroutine STARTED BY THE LIBRARY (run as a simulated task)
+// panicked; in a real process that kills the program.
+func livePanic(sch *engine.Sched, step int) *engine.Failure {
+	for t := 0; t < sch.NumTasks(); t++ {
+		if !sch.TaskLive(t) {
+			continue
+		}
+		if pv := sch.TaskPanic(t); pv != nil {
+			if he, ok := pv.(engine.HarnessError); ok {
+				panic(he)
+			}
+			return engine.Failf("C19.abort", step, "a goroutine started by the library panicked (a real process dies): %v", pv)
+		}
+	}
 	return nil
 }
 
